@@ -156,7 +156,7 @@ func (h *History) add(e Event) int {
 	h.mu.Lock()
 	defer h.mu.Unlock()
 	if h.Frozen {
-		return len(h.Events)
+		return 0
 	}
 	e.Seq = len(h.Events) + 1
 	h.Events = append(h.Events, e)
@@ -518,7 +518,11 @@ func (s *Session) reply(cmdSeq int, verb string, nth int, act Action, defCode in
 	e := Event{Kind: "reply", Verb: verb, Nth: nth, ReplyTo: cmdSeq, Code: code, Enh: enh, Text: full, Token: token, Action: kind, EndOff: s.pipe.S2CLen()}
 	e.Conn, e.Step, e.TimeNs, e.TLS, e.State, e.Seq = s.ID, s.srv.K.Steps, s.srv.K.Now(), s.TLS, s.state(), seq
 	s.srv.H.mu.Lock()
-	s.srv.H.Events[seq-1] = e
+	// the slot was reserved before the reply went out; after Freeze nothing was reserved (add
+	// returns 0) and nothing may be written — the last recorded event stays what it is
+	if seq > 0 && seq <= len(s.srv.H.Events) && s.srv.H.Events[seq-1].Kind == "" {
+		s.srv.H.Events[seq-1] = e
+	}
 	s.srv.H.mu.Unlock()
 	if err != nil {
 		return false
